@@ -495,6 +495,10 @@ def write_evidence(chk, tier, seed, cov, wall, violations, extra=None):
     if extra:
         ev.update(extra)
     p = os.path.join(VERIF, "evidence", chk.pid + ".json")
+    if os.environ.get("VERIF_BUILD_TAG") or os.environ.get("VERIF_SCAN") or os.environ.get("VERIF_REPO"):
+        # runs against scratch copies of the repository (mutants) or in scan mode never touch the real evidence
+        os.makedirs(os.path.join(VERIF, "evidence", "_scratch"), exist_ok=True)
+        p = os.path.join(VERIF, "evidence", "_scratch", chk.pid + ".json")
     with open(p + ".tmp", "w") as f:
         json.dump(ev, f, indent=1, default=str)
     os.replace(p + ".tmp", p)
